@@ -76,6 +76,7 @@ func c09Grid(w *W) {
 	}
 	p := mn.Connect(addr)
 	w.Settle()
+	w.Op("%s with TTL %d: inject messages that crossed k = 1..%d connections, each followed by an in-limit sentinel", kc.kind, ttl, ttl+2)
 	limit := ttl
 	if kc.family == "pair1" {
 		limit = ttl + 1
@@ -249,6 +250,7 @@ func c09Chain(w *W) {
 		}
 		clients = append(clients, c)
 	}
+	w.Op("%s: %d client(s) -> %d device(s) -> server over %s (calibrate=%v)", fam.name, nclient, d, tran, calibrate)
 	w.Sleep(5 * time.Millisecond)
 	w.Settle()
 	if calibrate {
